@@ -695,9 +695,11 @@ impl NotificationProtocol {
             // outbound substream for previous connection still pending, reject inbound substream
             // and wait for the outbound substream state to conclude as either succeeded or failed
             // before accepting any inbound substreams.
+            // (`pending_open` is only meaningful while the substream is still tracked in
+            // `pending_outbound`: if its open failure has already been handled, nothing is pending)
             PeerState::Closed {
                 pending_open: Some(substream_id),
-            } => {
+            } if self.pending_outbound.contains_key(&substream_id) => {
                 tracing::debug!(
                     target: LOG_TARGET,
                     ?peer,
@@ -711,7 +713,7 @@ impl NotificationProtocol {
                 };
             }
             // the peer state is closed so this is a fresh inbound substream.
-            PeerState::Closed { pending_open: None } => {
+            PeerState::Closed { .. } => {
                 self.negotiation.read_handshake(peer, substream);
 
                 context.state = PeerState::Validating {
@@ -978,9 +980,13 @@ impl NotificationProtocol {
         match context.state {
             // protocol can only request a new outbound substream to be opened if the state is
             // `Closed` other states imply that it's already open
+            //
+            // a pending substream can only be reused while it is still tracked in
+            // `pending_outbound`: once its open failure has been handled it will never be
+            // reported again and a request waiting for it would never be answered
             PeerState::Closed {
                 pending_open: Some(substream_id),
-            } => {
+            } if self.pending_outbound.contains_key(&substream_id) => {
                 tracing::trace!(
                     target: LOG_TARGET,
                     ?peer,
